@@ -5,6 +5,7 @@ import (
 	"errors"
 	"fmt"
 	"io"
+	"reflect"
 	"sort"
 	"strings"
 	"sync"
@@ -425,9 +426,11 @@ type CLog struct {
 	HeaderErr  *ErrObs             `json:"header_err,omitempty"`
 	HeaderDone bool                `json:"header_done"`
 	TrailerMD  map[string][]string `json:"trailer,omitempty"`
-	TrailerGot bool                `json:"trailer_got"`
-	Done       bool                `json:"done"`
-	DoneAt     time.Time           `json:"done_at"`
+	// TrailerAgainDiffers: a second Trailer() call right after the first returned something else
+	TrailerAgainDiffers string    `json:"trailer_again_differs,omitempty"`
+	TrailerGot          bool      `json:"trailer_got"`
+	Done                bool      `json:"done"`
+	DoneAt              time.Time `json:"done_at"`
 }
 
 func (l *CLog) Snapshot() *CLog {
@@ -436,7 +439,7 @@ func (l *CLog) Snapshot() *CLog {
 	return &CLog{OpenErr: l.OpenErr, Sends: append([]SendObs{}, l.Sends...), CloseErr: l.CloseErr,
 		Recv: append([][]byte{}, l.Recv...), RecvD: append([]string{}, l.RecvD...), RecvEnd: l.RecvEnd,
 		RecvAfter: append([]ErrObs{}, l.RecvAfter...), HeaderMD: l.HeaderMD, HeaderErr: l.HeaderErr, HeaderDone: l.HeaderDone,
-		TrailerMD: l.TrailerMD, TrailerGot: l.TrailerGot, Done: l.Done, DoneAt: l.DoneAt}
+		TrailerMD: l.TrailerMD, TrailerGot: l.TrailerGot, TrailerAgainDiffers: l.TrailerAgainDiffers, Done: l.Done, DoneAt: l.DoneAt}
 }
 
 // RunClientOps interprets ops on an open stream. cancel is the caller's
@@ -477,9 +480,13 @@ func RunClientOps(ops []COp, cs grpc.ClientStream, cancel context.CancelFunc, lo
 			log.mu.Unlock()
 		case "trailer":
 			md := cs.Trailer()
+			again := cs.Trailer() // asking twice is legal; the answer must be the same
 			log.mu.Lock()
 			log.TrailerGot = true
 			log.TrailerMD = map[string][]string(md.Copy())
+			if !reflect.DeepEqual(map[string][]string(md), map[string][]string(again)) && !(len(md) == 0 && len(again) == 0) {
+				log.TrailerAgainDiffers = fmt.Sprintf("first %v, second %v", md, again)
+			}
 			log.mu.Unlock()
 		case "cancel":
 			cancel()
